@@ -79,6 +79,9 @@ func (vc *FnVC) generate() {
 	if vc.fc != nil {
 		env := vc.newEnv(st, vc.entry)
 		for _, cl := range vc.fc.Requires {
+			if !vc.clauseApplies(cl) {
+				continue
+			}
 			t := vc.trBool(cl.E, env)
 			vc.emit(t)
 		}
